@@ -133,7 +133,12 @@ def rule_sel_consume(ctx):
     # every collection of ExpandedSelection that is pushed to is read by render
     rend = [f for f in ctx.crate('codegen').all_fns() if norm_path(f.path).endswith('ExpandedSelection::render')]
     if rend:
-        read = {n['name'] for n in walk(rend[0].body) if n['k'] == 'field' and n.get('adt', '').endswith('ExpandedSelection')}
+        cg_ = callgraph(ctx)
+        read = set()
+        for k_ in cg_.reachable([rend[0].key]):
+            f_ = ctx.fn_by_key(k_)
+            if f_ is not None and not f_.from_macro:
+                read |= {n['name'] for n in walk(f_.body) if n['k'] == 'field' and n.get('adt', '').endswith('ExpandedSelection')}
         for (adt, fname), ws in ctx.prog.field_writes_norm.items():
             if adt.endswith('ExpandedSelection'):
                 if fname in read or any(fname in {n['name'] for n in walk(f.body) if n['k'] == 'field'} for f in ctx.crate('codegen').all_fns()
@@ -267,7 +272,7 @@ def rule_variants(ctx):
             while s_[0] == 'proj':
                 s_ = s_[1]
             if s_[0] == 'expr':
-                for n_ in walk(s_[1]):
+                for _f, n_ in H.deep_nodes(ctx, fn, s_[1], 2):
                     if n_['k'] == 'field' and n_.get('adt'):
                         fs.add(n_['adt'].split('::')[-1] + '.' + n_['name'])
     for need, what in (('StoredUnion.variants', 'union members'), ('StoredObject.implements_interfaces', 'interface implementors')):
@@ -289,14 +294,13 @@ def rule_variants(ctx):
     for h in free_locals(fn, loop['iter']):
         for src in fn.binds.get(h, []):
             if src[0] == 'expr':
-                for n in walk(src[1]):
+                for f_, n in H.deep_nodes(ctx, fn, src[1], 2):
                     if n['k'] == 'mcall' and n['method'] in ('filter', 'take', 'skip', 'filter_map', 'take_while', 'skip_while', 'step_by'):
-                        body_t = repr(ctx.pv.eval(fn, n['args'][0], senv, 0)) if n['args'] else ''
-                        filt.append((n['method'], n))
+                        filt.append((n['method'], n, f_))
     badf = []
-    for mname, n in filt:
+    for mname, n, f_ in filt:
         clo = n['args'][0] if n['args'] else None
-        txt = P.show(ctx.pv.apply_closure(ctx.pv.eval(fn, clo, senv, 0), [('unknown', 'elem')], 0), 0, 6) if clo is not None else ''
+        txt = P.show(ctx.pv.apply_closure(ctx.pv.eval(f_, clo, H.sym_env(f_), 0), [('unknown', 'elem')], 0), 0, 6) if clo is not None else ''
         if mname == 'filter' and 'contains' in txt and 'implements_interfaces' in txt and not txt.startswith('!'):
             continue
         if mname == 'filter_map' and ('from_selection' in repr(n) or 'VariantSelection' in n.get('ty', '')):
@@ -472,16 +476,21 @@ def rule_operation_selection(ctx):
         else:
             obs.append(bad('ONE-ENTRY', 'derive', 'the derive reaches codegen through %s' % sorted(targets), d.loc, 'derive output differs from library output'))
     # one module per selected operation
-    loops = [l for l in fn.walk(lambda x: x['k'] == 'for')]
     okl = False
-    for l in loops:
-        if any(n['k'] == 'mcall' and n['method'] == 'to_token_stream' for n in walk(l['body'])):
-            t = ctx.pv.eval(fn, l['iter'], H.sym_env(fn), 0)
-            aggs = [n for n in walk(l['body']) if n['k'] == 'struct' and n.get('adt', '').endswith('GeneratedModule')]
+    # a `for` loop or an iterator closure over the selected operations, whose item names the module
+    scopes = [(l['body'], pat_hids(l['pat'])) for l in fn.walk(lambda x: x['k'] == 'for')]
+    for c_ in fn.closures:
+        hs = set()
+        for p_ in c_['params']:
+            hs |= pat_hids(p_)
+        scopes.append((c_['body'], hs))
+    for body_, bound_ in scopes:
+        if any(n['k'] == 'mcall' and n['method'] == 'to_token_stream' for n in walk(body_)):
+            aggs = [n for n in walk(body_) if n['k'] == 'struct' and n.get('adt', '').endswith('GeneratedModule')]
             if aggs:
                 opf = [x['e'] for x in aggs[0]['fields'] if x['name'] == 'operation']
                 deps = free_locals(fn, opf[0]) if opf else set()
-                if deps & pat_hids(l['pat']):
+                if deps & bound_:
                     okl = True
     if okl:
         obs.append(ok('ONE-ENTRY', 'inner/module-per-operation', 'one GeneratedModule per selected operation, named by that operation', fn.loc))
